@@ -200,8 +200,10 @@ def run_engine(ctx, cfg, flags, es, ivs):
             d_[path_[-1]] = {'_emit': f}
         kwargs['store_schema'] = ss
     elif cfg['via'] == 'branch':
-        kwargs['store_schema'] = {'s': {'_emit': flags[('s', 'x_p0')]},
-                                  'r': {'_emit': flags[('r', 'q_p0')]}}
+        kwargs['store_schema'] = {
+            's': {'_emit': flags[('s', 'x_p0')],
+                  'h_p1': {'_emit': flags[('s', 'h_p1')]}},
+            'r': {'_emit': flags[('r', 'q_p0')]}}
     emitter = {'type': 'vsym_rec' if cfg['emitter'] == 'rec' else 'vsym_ram'}
     extra_topology = {}
     if cfg.get('units'):
@@ -323,6 +325,10 @@ def body(ctx, cfg):
         fr = ctx.flag('fr')
         for p in var_paths:
             flags[p] = fs if p[0] == 's' else fr
+        # ... except one leaf below the flagged branch, which carries the
+        # opposite flag in the same store_schema dictionary ("the branch but
+        # for this variable")
+        flags[('s', 'h_p1')] = not fs
         lf = ctx.flag('lf')
         CTX['leaf_flags'] = [lf, not lf, True]
         ctx.goal('branch-level flag')
